@@ -15,27 +15,37 @@ import (
 )
 
 type KnownFinding struct {
+	ID          string   `json:"id"`
+	Property    string   `json:"property"`
+	Properties  []string `json:"properties"`
+	Obligation  string   `json:"obligation"`     // exact obligation name
+	Obligations []string `json:"obligations"`    // or several
+	Residual    string   `json:"residual_guard"` // contract-language guard under which the obligation must still hold
+	What        string   `json:"what"`
+	Witness     *Witness `json:"witness"`
+}
+
+type Witness struct {
+	Package string `json:"package"` // package directory relative to the module root ("" = root)
+	File    string `json:"file"`    // file under /verif/replay/known
+	Test    string `json:"test"`    // test function in that file; logs "WITNESS <id> MANIFESTS|ABSENT ..."
+}
+
+type FixedFinding struct {
 	ID         string   `json:"id"`
 	Property   string   `json:"property"`
 	Properties []string `json:"properties"`
-	Obligation string   `json:"obligation"`           // exact obligation name
-	Obligations []string `json:"obligations"`         // or several
-	Residual   string   `json:"residual_guard"`       // contract-language guard under which the obligation must still hold
+	Commit     string   `json:"commit"`
+	Obligation string   `json:"obligation"`
 	What       string   `json:"what"`
 	Witness    *Witness `json:"witness"`
 }
 
-type Witness struct {
-	Package string `json:"package"` // package path relative to the module root ("" = root)
-	Test    string `json:"test"`    // name of the replay test function in /verif/replay/known/<id>.go
-}
-
-type FixedFinding struct {
-	ID         string `json:"id"`
-	Property   string `json:"property"`
-	Commit     string `json:"commit"`
-	Obligation string `json:"obligation"`
-	What       string `json:"what"`
+func (k *FixedFinding) props() []string {
+	if len(k.Properties) > 0 {
+		return k.Properties
+	}
+	return []string{k.Property}
 }
 
 type KnownFile struct {
@@ -247,7 +257,7 @@ func cmdCheck(repo, root string, args []string) int {
 	// assemble results
 	type failure struct {
 		name, status, text, pos, fn, detail string
-		known                                 *KnownFinding
+		known                               *KnownFinding
 	}
 	var fails []failure
 	discharged, trivial := 0, 0
@@ -296,15 +306,36 @@ func cmdCheck(repo, root string, args []string) int {
 		}
 	}
 	nObl := len(groups) + len(t1Lemmas)
-	// known findings: print, and replay their witnesses
+	// replay the recorded witnesses of known findings (must still manifest) and of repaired defects (must stay absent)
+	ws := map[string]*Witness{}
+	for _, k := range known.Findings {
+		if hasProp(k.props(), prop) && k.Witness != nil {
+			ws[k.ID] = k.Witness
+		}
+	}
+	for _, k := range known.Fixed {
+		if hasProp(k.props(), prop) && k.Witness != nil {
+			ws[k.ID] = k.Witness
+		}
+	}
+	wres := runWitnesses(repo, root, ws)
 	violations := 0
+	for _, k := range known.Fixed {
+		if r := wres[k.ID]; r != nil && r.Status == "MANIFESTS" {
+			violations++
+			rp := filepath.Join(root, "evidence", "replay", prop+"-witness-"+k.ID+".json")
+			writeJSON(rp, map[string]interface{}{"property": prop, "finding": k.ID, "what": k.What, "witness_test": r.File, "output": r.Line,
+				"rerun": "/verif/check " + prop + " quick", "note": "a defect recorded as fixed manifests again on the real code (concrete input in the witness test)"})
+			fmt.Printf("VIOLATION property=%s replay=%s finding=%s (recorded as fixed, manifests again: %s)\n", prop, rp, k.ID, r.Line)
+		}
+	}
 	knownPrinted := map[string]bool{}
 	var knownLines []string
 	for _, f := range fails {
 		if f.known != nil {
 			if !knownPrinted[f.known.ID] {
 				knownPrinted[f.known.ID] = true
-				line := fmt.Sprintf("KNOWN-FINDING: property=%s %s: %s [obligation %s]", prop, f.known.ID, f.known.What, f.name)
+				line := fmt.Sprintf("KNOWN-FINDING: property=%s %s: %s [obligation %s; witness %s]", prop, f.known.ID, f.known.What, f.name, fmtWitness(wres[f.known.ID]))
 				fmt.Println(line)
 				knownLines = append(knownLines, line)
 			}
@@ -354,9 +385,19 @@ func cmdCheck(repo, root string, args []string) int {
 		}
 	}
 	level := "proof"
+	nKnownObl := 0
+	for _, f := range fails {
+		if f.known != nil {
+			nKnownObl++
+		}
+	}
 	cov := map[string]interface{}{
-		"obligations":              nObl,
+		// obligations that have to be discharged on this tree: all generated ones except those a listed known finding
+		// names (each of those is replaced by its residual obligation, which is counted here)
+		"obligations":              nObl - nKnownObl,
 		"discharged":               discharged,
+		"obligations_generated":    nObl,
+		"obligations_excluded_by_known_findings": nKnownObl,
 		"discharged_by_simplifier": trivial,
 		"failed":                   len(fails),
 		"known_findings":           knownLines,
@@ -370,14 +411,17 @@ func cmdCheck(repo, root string, args []string) int {
 		"theory_lemmas_reproved":   len(t1Lemmas),
 		"vacuity_checks":           len(vac),
 		"samples":                  samples,
+		"witness_replays":          witnessSummary(wres),
 		"load_s":                   loadS,
 		"generate_s":               genS,
 		"contract_files":           relFiles(w.Files, repo),
 	}
-	if discharged != nObl {
+	if discharged != nObl-nKnownObl {
 		// the proof did not go through: this run proves nothing; say so rather than claim the level
 		level = "other"
-		cov["explanation"] = fmt.Sprintf("%d of %d obligations were not discharged (%d of them are listed known findings); the property is not proved on this tree, see known_findings.json and the VIOLATION lines", len(fails), nObl, len(knownLines))
+		cov["explanation"] = fmt.Sprintf("%d of %d obligations were not discharged (%d of them belong to listed known findings); the property is not proved on this tree, see the VIOLATION lines", len(fails), nObl, nKnownObl)
+	} else if nKnownObl > 0 {
+		cov["explanation"] = fmt.Sprintf("proved except for %d obligation(s) that fail because of %d genuine defect(s) recorded in known_findings.json (each printed as KNOWN-FINDING with its witness replayed on the real code); outside their carve-outs every obligation is discharged", nKnownObl, len(knownLines))
 	}
 	ev := &evidence{PropertyID: prop, Tier: tier, Seed: seed, Level: level, Coverage: cov, Assumptions: asm, WallS: time.Since(t0).Seconds(), Violations: violations}
 	if err := writeJSON(evPath, ev); err != nil {
@@ -422,4 +466,12 @@ func writeReplay(root, prop, name, status, text, pos, detail string) string {
 		"rerun":      "/verif/check " + prop + " quick",
 	})
 	return fn
+}
+
+func witnessSummary(w map[string]*witnessRun) []string {
+	var out []string
+	for _, id := range sortedKeys(w) {
+		out = append(out, id+" "+w[id].Status)
+	}
+	return out
 }
